@@ -98,6 +98,104 @@ def atom_valuation(mapping, assignment, resolver=None):
     return val
 
 
+def raise_sites(f, cfg):
+    """[(Raise stmt, own conditions, sibling conditions)]: the function raises at that site iff its own conditions (tests of the enclosing ifs, with
+    polarity) hold, given that the earlier guards of the enclosing blocks let execution pass (sibling conditions)"""
+    from .core import inline_expr
+    out = []
+    for n in body_walk(f.node):
+        if isinstance(n, ast.Raise):
+            own_ids = set()
+            cur = n
+            while True:
+                p = cfg.parent.get(id(cur))
+                if p is None or p[0] is None:
+                    break
+                if isinstance(p[0], ast.If):
+                    # the else-branch of an if whose body ends in raise / return is "after another guard", like an earlier sibling guard
+                    from .cfg import _terminates
+                    if not (p[1] == 'orelse' and _terminates(p[0].body)):
+                        own_ids.add(id(p[0].test))
+                cur = p[0]
+            own, sib = [], []
+            for e, pol in cfg.conditions(n):
+                (own if id(e) in own_ids else sib).append((e, inline_expr(f.node, e), pol))
+            out.append((n, own, sib))
+    return out
+
+
+def raises_when(sites, val):
+    """does some raise site fire under the valuation?  A site whose OWN conditions mention atoms the valuation does not know is another guard: skipped;
+    earlier sibling guards over unknown atoms are assumed to pass.   -> (raises, sites that fire)"""
+    def ev(e, e2):
+        try:
+            return eval_bool(e, val)
+        except Incomplete:
+            return eval_bool(e2, val)
+    fired = []
+    for st, own, sib in sites:
+        try:
+            res = all(ev(e, e2) == pol for e, e2, pol in own)
+        except Incomplete:
+            continue
+        if not res:
+            continue
+        ok, known = True, len(own)
+        for e, e2, pol in sib:
+            try:
+                if ev(e, e2) != pol:
+                    ok = False
+                known += 1
+            except Incomplete:
+                pass
+        if ok and known:
+            fired.append(st)
+    return bool(fired), fired
+
+
+def guard_table(f, cfg, mapping, spec, effects):
+    """the function raises in exactly the cases `spec` says, over all valuations of the atoms of `mapping`, and in those cases no protected effect is
+    reached: either a firing raise site precedes (dominates) the effect, or the effect's own path conditions exclude the case.
+    Works for merged, split, nested and inverted (`if ok: effect / else: raise`, `if ok: return value` + trailing raise) spellings alike."""
+    import itertools as _it
+    from .core import inline_expr
+    atoms = sorted({a for a, _ in mapping.values()})
+    sites = raise_sites(f, cfg)
+
+    def top_of(st):
+        top = st
+        while True:
+            p = cfg.parent.get(id(top))
+            if p is None or p[0] is None:
+                return top
+            top = p[0]
+    for vals in _it.product((False, True), repeat=len(atoms)):
+        asg = dict(zip(atoms, vals))
+        val = atom_valuation(mapping, asg)
+        got, fired = raises_when(sites, val)
+        if got != bool(spec(asg)):
+            return False, 'for %s the function %s' % (asg, 'raises' if got else 'does not raise')
+        if not got:
+            continue
+        tops = [top_of(st) for st in fired]
+        for e in effects:
+            if any(cfg.dominates(t, e) and not any(x is e for x in ast.walk(t)) for t in tops):
+                continue
+            # not dominated by a firing guard: the effect's own path conditions must exclude this valuation
+            excluded = False
+            for c, pol in cfg.conditions(e):
+                for variant in (c, inline_expr(f.node, c)):
+                    try:
+                        if eval_bool(variant, val) != pol:
+                            excluded = True
+                        break
+                    except Incomplete:
+                        continue
+            if not excluded:
+                return False, 'for %s the protected effect (%s) is reachable although the call must be rejected' % (asg, norm(e)[:60])
+    return True, ''
+
+
 class BackwardInfo:
     """structure of Tensor.backward extracted once"""
     def __init__(self, model):
@@ -569,9 +667,16 @@ def check_seed_owned(model, R, P, B):
         okd = okd or any(isinstance(k, ast.keyword) and k.arg == 'dtype' and norm(k.value) in ('%s.dtype' % s, '%s.data.dtype' % s) for e in chain for k in ast.walk(e))
         R.ob(P + '.SEED-OWNED', f.qualname, 'dtype of ' + norm(n), okd or isinstance(n, ast.AugAssign), 'the seed must be converted to the root tensor\'s dtype (a float64 seed would leave a float64 buffer on a float32 tensor)', _loc(f, n))
     # shape check dominates the seed
-    guards = [n for n in body_walk(f.node) if isinstance(n, ast.If) and 'matches_shape' in norm(n.test) and any(isinstance(x, ast.Raise) for x in n.body)]
     via_setter = any((n.target if isinstance(n, ast.AugAssign) else n.targets[0]).attr == 'grad' for n in seeds)
-    ok = via_setter or (bool(guards) and all(B.cfg.dominates(guards[0], _top_stmt(f.node, n)) for n in seeds))
+    gname = f.pos_params[1] if len(f.pos_params) > 1 else 'grad'
+    mapping = {}
+    for recv in (s,):
+        for a_ in (gname, gname + '.data'):
+            mapping['%s.matches_shape(%s)' % (recv, a_)] = ('M', True)
+    mapping['%s.shape == %s.shape' % (gname, s)] = ('M', True)
+    mapping['%s.shape == %s.shape' % (s, gname)] = ('M', True)
+    ok_tab, _why = guard_table(f, B.cfg, mapping, lambda a: not a['M'], [_top_stmt(f.node, n) for n in seeds])
+    ok = via_setter or ok_tab
     R.ob(P + '.SEED-OWNED', f.qualname, 'shape check before seeding', ok and bool(seeds), 'a seed of a different shape must be rejected (matches_shape -> raise) before it is installed', f.loc)
 
 
